@@ -566,8 +566,6 @@ Proof.
   destruct (find_start (ks_recs ks) (l_ts (ll_rec l))) as [r|] eqn:Hf; cbn [option_map rec_wt].
   - rewrite rec_w_kind. destruct (op_eqb (lr_kind r) OpRollback).
     { repeat split. }
-    destruct (lr_ts r =? cv).
-    { split; [reflexivity|]. split; [apply same_off_refl|]. split; [exact HR | exact HI]. }
     split; [reflexivity|]. split; [apply same_off_del_lock|]. split.
     + constructor; cbn [ks_lock ks_recs option_map].
       * apply get_lock_del_lock.
@@ -758,6 +756,30 @@ Proof.
   rewrite (Rk_lock _ _ _ (HR primary)).
   destruct (ks_lock (ls_at a primary)) as [l|] eqn:Hl; cbn [option_map].
   - destruct (negb (l_ts (ll_rec l) =? lts)) eqn:Hts; [auto|].
+    rewrite (get_write_by_start_ok s primary _ (HR primary) (HI primary)).
+    assert (Hcm : match option_map rec_wt (find_start (ks_recs (ls_at a primary)) lts) with
+                  | Some (w, ct) => if op_eqb (w_kind w) OpRollback then None else Some ct
+                  | None => None
+                  end =
+                  option_map lr_ts (match find_start (ks_recs (ls_at a primary)) lts with
+                                    | Some r => if op_eqb (lr_kind r) OpRollback then None else Some r
+                                    | None => None
+                                    end)).
+    { destruct (find_start (ks_recs (ls_at a primary)) lts) as [r0|]; cbn; [|reflexivity].
+      destruct (op_eqb (lr_kind r0) OpRollback); reflexivity. }
+    rewrite Hcm. clear Hcm.
+    destruct (match find_start (ks_recs (ls_at a primary)) lts with
+              | Some r => if op_eqb (lr_kind r) OpRollback then None else Some r
+              | None => None
+              end) as [r0|]; cbn [option_map].
+    { split; [reflexivity|]. split.
+      - eapply R_lupd; [exact HR | apply same_off_del_lock |].
+        constructor; cbn [ks_lock ks_recs option_map].
+        + apply get_lock_del_lock.
+        + apply (Rk_rows _ _ _ (HR primary)).
+        + intros r1 Hr1 Hkind. now apply (Rk_val _ _ _ (HR primary)).
+        + intros l0 E. discriminate.
+      - apply Inv_lupd; [exact HI|]. apply ks_inv_unlock, HI. }
     rewrite is_lock_expired_ok. destruct (lock_expired (ll_rec l) cur).
     + pose proof (rollback_key_ok s primary _ lts (HR primary) (HI primary)) as H.
       destruct (rollback_key current s primary lts) as [s1 e].
